@@ -823,8 +823,8 @@ func (c *Ctx) fileStratum(prop string, nRandom int) {
 		fileLine("bytes", content, p)
 	}
 	c.M.Case("file-documents")
-	// one line longer than 4 KiB, 64 KiB (bufio's default buffer and token limit) and, in the thorough tier, 1 MiB
-	for _, size := range []int{5000, 70000, c.N(70001, 1100000)} {
+	// one line longer than 4 KiB, 64 KiB (bufio's default buffer and token limit) and, in the thorough tier, 200 kB (the model's list accumulator is quadratic)
+	for _, size := range []int{5000, 70000, c.N(70001, 200000)} {
 		var sb strings.Builder
 		sb.WriteString(`{"k":[`)
 		for i := 0; sb.Len() < size; i++ {
